@@ -4,6 +4,7 @@ import (
 	"fmt"
 	"go/constant"
 	"go/types"
+	"regexp"
 	"strconv"
 	"strings"
 
@@ -486,12 +487,25 @@ func (env *SpecEnv) sel(x SSel) Val {
 				cur = Val{Addr: app(g.fldFn(si, i), cur.Addr), T: f.T, Sort: f.Sort}
 			} else {
 				cur = env.a.loadField(env.st, cur.Addr, ct, i)
+				env.typedFact(cur)
 			}
 		} else {
 			cur = Val{S: app(f.Sel, cur.S), Sort: f.Sort, T: f.T}
 		}
 	}
 	return cur
+}
+
+var boundVarRe = regexp.MustCompile(`\bq[0-9]+_`)
+
+// typedFact asserts the well-typedness (range) fact of a value read from the heap, when it is closed.
+func (env *SpecEnv) typedFact(v Val) {
+	if v.T == nil || v.S == "" || boundVarRe.MatchString(v.S) {
+		return
+	}
+	if f := env.vc.g.rangeFact(v.T, v.S); f != "true" {
+		env.vc.assume("true", f)
+	}
 }
 
 func (env *SpecEnv) localVarQuiet(name string) (Val, bool) {
@@ -513,7 +527,9 @@ func (env *SpecEnv) index(x SIndex) Val {
 			if g.structInfoOf(u.Elem()) != nil {
 				return Val{Addr: addr, T: u.Elem(), Sort: g.sortOf(u.Elem())}
 			}
-			return env.a.loadAt(env.st, addr, u.Elem())
+			r := env.a.loadAt(env.st, addr, u.Elem())
+			env.typedFact(r)
+			return r
 		case *types.Map:
 			_, _, vk, vs, _, _ := env.a.mapHeaps(env.st, u)
 			i = env.a.convKey(env.st, i, u.Key())
